@@ -940,6 +940,10 @@ subroutine solve(initial_values, indexes,                                       
      else if(error_code >= index_error_below .and. error_code <= index_error_leads) then
         return
 
+     ! `offset` points outside the span: Always stop, too
+     else if(error_code == offset_predates_span .or. error_code == offset_postdates_span) then
+        return
+
      ! Other errors: Raise as required
      else if(error_control == error_control_raise) then
         return
